@@ -1,8 +1,13 @@
 (* L0 oracle for C13: the observed result column (type, row ids, cells) or exception
-   vs. the element-wise specification of Spec/Arith.v, instantiated with exact
-   arithmetic; cases the instance does not compute exactly are not judged (and counted). *)
+   vs. the element-wise specification of Spec/Arith.v, instantiated
+   (a) with exact arithmetic: cases the instance does not compute exactly are not judged (and counted);
+   (b) with IEEE-754 binary64 arithmetic (Spec/ArithIeee.v on Base/Float64Py.v; Coq's primitive floats):
+       every row is judged -- + - * / // % on floats with their rounding, overflow to infinity, inf - inf,
+       subnormals; ** as far as (a) goes; zero divisors are outside the property's quantifier.
+   Both are evaluated on every case (a disagreement between the two instances would show up as a failure of one
+   of them on the unchanged tree). *)
 From Coq Require Import ZArith List Bool String.
-From DM Require Export Base.PyVal Spec.Nf Spec.Arith Spec.ArithSeries.
+From DM Require Export Base.PyVal Base.Float64Py Spec.Nf Spec.Arith Spec.ArithSeries Spec.ArithIeee.
 Import ListNotations.
 
 Definition oracle_op (t : list (fl * string)) (op : binop) (refl : bool) (c : column) (o : operand)
@@ -11,6 +16,15 @@ Definition oracle_op (t : list (fl * string)) (op : binop) (refl : bool) (c : co
 (* true: every row of the case is judged *)
 Definition judged (t : list (fl * string)) (op : binop) (refl : bool) (c : column) (o : operand) : bool :=
   spec_defined t op refl c o.
+
+(* the same with binary64 arithmetic F *)
+Definition oracle_op_ieee_gen (F : fops) (t : list (fl * string)) (op : binop) (refl : bool) (c : column) (o : operand)
+    (observed : res column) : bool :=
+  rescol_eqv_mask (defined_mask_ieee t op refl c o) (spec_operate (ieee_op_gen F) (fstr_tab t) op refl c o) observed.
+Definition oracle_op_ieee := oracle_op_ieee_gen prim_fops.
+Definition oracle_op_ieee_spec := oracle_op_ieee_gen spec_fops.
+Definition judged_ieee (t : list (fl * string)) (op : binop) (refl : bool) (c : column) (o : operand) : bool :=
+  forallb (fun b => b) (defined_mask_ieee t op refl c o).
 
 (* dm.r = result: the cell read in every row of the table (rows listed by id) is the specified cell of that row *)
 Fixpoint opts_eqv (a : list (option (bool * val))) (b : list val) : bool :=
@@ -24,12 +38,21 @@ Fixpoint row_lookup (ids : list N) (m : list bool) (cells : list val) (r : N) : 
   | i :: ids', d :: m', c :: cells' => if N.eqb i r then Some (d, c) else row_lookup ids' m' cells' r
   | _, _, _ => None
   end.
-Definition oracle_assign (t : list (fl * string)) (op : binop) (refl : bool) (c : column) (o : operand)
+Definition oracle_assign_gen (num_op : binop -> num -> num -> num) (mask : list bool)
+    (t : list (fl * string)) (op : binop) (refl : bool) (c : column) (o : operand)
     (dm_ids : list N) (assigned : list val) : bool :=
-  match spec_operate exact_op (fstr_tab t) op refl c o with
-  | Ok r => opts_eqv (map (row_lookup (cids r) (defined_mask t op refl c o) (ccells r)) dm_ids) assigned
+  match spec_operate num_op (fstr_tab t) op refl c o with
+  | Ok r => opts_eqv (map (row_lookup (cids r) mask (ccells r)) dm_ids) assigned
   | Raise _ => true
   end.
+Definition oracle_assign (t : list (fl * string)) (op : binop) (refl : bool) (c : column) (o : operand)
+    (dm_ids : list N) (assigned : list val) : bool :=
+  oracle_assign_gen exact_op (defined_mask t op refl c o) t op refl c o dm_ids assigned.
+Definition oracle_assign_ieee_gen (F : fops) (t : list (fl * string)) (op : binop) (refl : bool) (c : column) (o : operand)
+    (dm_ids : list N) (assigned : list val) : bool :=
+  oracle_assign_gen (ieee_op_gen F) (defined_mask_ieee t op refl c o) t op refl c o dm_ids assigned.
+Definition oracle_assign_ieee := oracle_assign_ieee_gen prim_fops.
+Definition oracle_assign_ieee_spec := oracle_assign_ieee_gen spec_fops.
 
 (* col @ f / map_(f, col); f is the table of f's values on the cells *)
 Definition oracle_map (f : list (val * pyv)) (c : column) (observed : res column) : bool :=
@@ -43,3 +66,35 @@ Definition oracle_series (op : binop) (refl : bool) (c : scolumn) (o : soperand)
   srescol_eqv_mask (series_mask op refl c o) (spec_series exact_op op refl c o) observed.
 Definition judged_series (op : binop) (refl : bool) (c : scolumn) (o : soperand) : bool :=
   forallb (forallb (fun b => b)) (series_mask op refl c o).
+Definition oracle_series_ieee_gen (F : fops) (op : binop) (refl : bool) (c : scolumn) (o : soperand) (observed : res scolumn) : bool :=
+  srescol_eqv_mask (series_mask_gen ieee_defined op refl c o) (spec_series (ieee_op_gen F) op refl c o) observed.
+Definition oracle_series_ieee := oracle_series_ieee_gen prim_fops.
+Definition oracle_series_ieee_spec := oracle_series_ieee_gen spec_fops.
+Definition judged_series_ieee (op : binop) (refl : bool) (c : scolumn) (o : soperand) : bool :=
+  forallb (forallb (fun b => b)) (series_mask_gen ieee_defined op refl c o).
+
+(* ---------- one term per case: both instances on the same arguments (the case literals are parsed once) *)
+Definition oracle_c13_gen (F : fops) (t : list (fl * string)) (op : binop) (refl : bool) (c : column) (o : operand)
+    (observed : res column) (assigned : option (list N * list val)) : bool :=
+  oracle_op t op refl c o observed && oracle_op_ieee_gen F t op refl c o observed &&
+  match assigned with
+  | Some (ids, vs) => oracle_assign t op refl c o ids vs && oracle_assign_ieee_gen F t op refl c o ids vs
+  | None => true
+  end.
+Definition oracle_c13 := oracle_c13_gen prim_fops.
+Definition oracle_c13_spec := oracle_c13_gen spec_fops.
+(* [oracle; every row of the case is judged] *)
+Definition vec_c13_gen (F : fops) (t : list (fl * string)) (op : binop) (refl : bool) (c : column) (o : operand)
+    (observed : res column) (assigned : option (list N * list val)) : list bool :=
+  [oracle_c13_gen F t op refl c o observed assigned; judged_ieee t op refl c o].
+Definition vec_c13 := vec_c13_gen prim_fops.
+Definition vec_c13_spec := vec_c13_gen spec_fops.
+
+Definition oracle_series_c13_gen (F : fops) (op : binop) (refl : bool) (c : scolumn) (o : soperand) (observed : res scolumn) : bool :=
+  oracle_series op refl c o observed && oracle_series_ieee_gen F op refl c o observed.
+Definition oracle_series_c13 := oracle_series_c13_gen prim_fops.
+Definition oracle_series_c13_spec := oracle_series_c13_gen spec_fops.
+Definition vec_series_c13_gen (F : fops) (op : binop) (refl : bool) (c : scolumn) (o : soperand) (observed : res scolumn) : list bool :=
+  [oracle_series_c13_gen F op refl c o observed; judged_series_ieee op refl c o].
+Definition vec_series_c13 := vec_series_c13_gen prim_fops.
+Definition vec_series_c13_spec := vec_series_c13_gen spec_fops.
